@@ -7,7 +7,7 @@ use crate::state::{set_of, CAP};
 use raft::verif_export::{AckedIndexer, Configuration, HashMap, HashSet, Index, ProgressMap, VoteResult};
 use raft::{JointConfig, MajorityConfig, Progress, ProgressTracker};
 
-pub const NMAX: usize = 6;
+pub const NMAX: usize = 9;
 
 /// symbolic acknowledgement table over the ids that occur in the two halves
 pub struct Acks {
